@@ -1,7 +1,7 @@
 (* C07: concrete instances -- hypotheses of the round-trip theorems are
    satisfiable, and the double-literal statement is refuted by computation *)
 From Coq Require Import ZArith List Bool String Lia.
-From GD Require Import C07.Token C07.TokenProofs C07.Number C07.NumberProofs C07.Entry C07.EntryProofs.
+From GD Require Import C07.Token C07.TokenProofs C07.Number C07.NumberProofs C07.Entry C07.EntryProofs Gen.Formats.
 Import ListNotations.
 Local Open Scope Z_scope.
 
@@ -37,10 +37,44 @@ Lemma dlit_15_bad : ~ dlit_ok (ctx 10 15) d_03.
 Proof. intros (_ & _ & H). vm_compute in H. discriminate. Qed.
 Lemma dlit_15_max_bad : ~ dlit_ok (ctx 10 15) d_max.
 Proof. intros (_ & _ & H). vm_compute in H. discriminate. Qed.
-Lemma dlit_17_sub_bad : ~ dlit_ok (ctx 10 17) d_sub.
-Proof. intros (_ & _ & H). vm_compute in H. discriminate. Qed.
-Lemma dlit_17_negzero_bad : ~ dlit_ok (ctx 10 17) d_negzero.
-Proof. intros (_ & _ & H). vm_compute in H. discriminate. Qed.
+(* decidable form of dlit_ok *)
+Definition dlit_okb (c : wctx) (b : Z) : bool :=
+  plainb (print_g (w_P c) b) &&
+  match print_g (w_P c) b with [] => false | _ => true end &&
+  match set_dbl (rctx_of c) (print_g (w_P c) b) with Some (SLit v) => v =? b | _ => false end.
+
+Lemma dlit_okb_ok c b : dlit_okb c b = true -> dlit_ok c b.
+Proof.
+  unfold dlit_okb, dlit_ok. rewrite !andb_true_iff. intros [[H1 H2] H3].
+  split; [exact H1|]. split.
+  - intros E. rewrite E in H2. discriminate.
+  - destruct (set_dbl (rctx_of c) (print_g (w_P c) b)) as [[v|n i]|]; try discriminate.
+    apply Z.eqb_eq in H3. subst v. reflexivity.
+Qed.
+
+Lemma dlit_ok_okb c b : dlit_ok c b -> dlit_okb c b = true.
+Proof.
+  unfold dlit_okb, dlit_ok. intros (H1 & H2 & H3). rewrite H1, H3, Z.eqb_refl.
+  destruct (print_g (w_P c) b); [congruence | reflexivity].
+Qed.
+
+(* the two literal rules of _GD_TokToNum, both reader variants (tree independent) *)
+Lemma subnormal_variants :
+  stableb_gen false false 17 d_sub = false /\ stableb_gen false true 17 d_sub = false /\
+  stableb_gen true false 17 d_sub = true /\ stableb_gen true true 17 d_sub = true.
+Proof. repeat split; vm_compute; reflexivity. Qed.
+
+Lemma negzero_variants :
+  stableb_gen false false 17 d_negzero = false /\ stableb_gen true false 17 d_negzero = false /\
+  stableb_gen false true 17 d_negzero = true /\ stableb_gen true true 17 d_negzero = true.
+Proof. repeat split; vm_compute; reflexivity. Qed.
+
+(* ... and for the reader of the current source (Gen/Formats.v records which
+   rules it has): the literal is read back iff the rule is present *)
+Lemma subnormal_current : dlit_okb (ctx 10 17) d_sub = tok_accepts_underflow.
+Proof. vm_compute. reflexivity. Qed.
+Lemma negzero_current : dlit_okb (ctx 10 17) d_negzero = tok_zero_via_strtod.
+Proof. vm_compute. reflexivity. Qed.
 
 (* the statement one would like: every finite double literal is read back *)
 Definition double_literal_roundtrip_statement (P : Z) : Prop :=
@@ -48,11 +82,6 @@ Definition double_literal_roundtrip_statement (P : Z) : Prop :=
 
 Lemma dbl_stmt_refuted_15 : ~ double_literal_roundtrip_statement 15.
 Proof. intros H. apply dlit_15_bad. apply H; [apply ctx_ok_10 | reflexivity | reflexivity]. Qed.
-Lemma dbl_stmt_refuted_17_subnormal :
-  exists b, dbl_is_subnormal b = true /\ ~ dlit_ok (ctx 10 17) b.
-Proof. exists d_sub. split; [reflexivity | exact dlit_17_sub_bad]. Qed.
-Lemma dbl_stmt_refuted_17_negzero : ~ dlit_ok (ctx 10 17) d_negzero.
-Proof. exact dlit_17_negzero_bad. Qed.
 
 (* the refutation at entry level: CONST FLOAT64 0.1+0.2 written with 15 digits *)
 Lemma const_15_lost :
